@@ -121,8 +121,8 @@ theorem scalarMult_facts :
     G.scalarMult.inputs = ["p", "q", "s"] ∧ G.scalarMult.outputs = ["p"]
     ∧ G.scalarMult.guards = [] ∧ G.scalarMult.paramWrites = [] ∧ G.scalarMult.hazards = []
     ∧ G.scalarMult.facts = [("opaque s", "normalizeScalar(k)"),
-        ("index-checked", "s[0] in [0, 0] of 32"), ("index-checked", "s[i] in [1, 31] of 32"),
-        ("loop i", "for i := 1; i < len(s); i++")] := by
+        ("index-checked", "s in [0, 0] of 32"), ("index-checked", "s in [1, 31] of 32"),
+        ("loop 1", "from 1 below 32 step 1")] := by
   ptops_decide "C15MulOps.scalarMult_facts"
 
 end C15MulOps
